@@ -32,9 +32,11 @@ var vfAlphabet = []string{"", "x", "y", "x ", "X", "100% full", "%d%s%v", "%",
 	strings.Repeat("q", 255) + "a", strings.Repeat("q", 255) + "b",
 	strings.Repeat("q", 256) + "a", strings.Repeat("q", 256) + "b",
 	strings.Repeat("r", 4999) + "a", strings.Repeat("r", 4999) + "b",
-	strings.Repeat("s", 64), strings.Repeat("s", 65), strings.Repeat("s", 1024), strings.Repeat("s", 1025)}
+	strings.Repeat("s", 64), strings.Repeat("s", 65), strings.Repeat("s", 1024), strings.Repeat("s", 1025),
+	// distinct messages that collide under common 32-bit checksums (FNV-1a, CRC-32, the 31-multiplier string hash)
+	"costarring", "liquid", "declinate", "macallums", "altarage", "zinke", "plumless", "buckeroo", "Aa", "BB"}
 
-const vfC20Rule = "generated: interval from {1ns..1h}, up to 40 (message, delta-t, Print|Printf) arrivals with delta-t drawn from {0, 1ns, I-1ns, I, I+1ns, uniform in [0,2I]} over a 22-symbol alphabet (incl. the empty message, near-duplicates, messages containing '%' and pairs of long messages that differ only at byte 127, 128, 255, 256, 4999 or by one trailing byte); captured log output compared line by line with the model 'suppressed iff identical to the last printed message and less than I after that print'. Non-trivial: some message was suppressed and later printed again after the interval, and at least two different messages were printed. Distinct by hash of the case."
+const vfC20Rule = "generated: interval from {1ns..1h}, up to 40 (message, delta-t, Print|Printf) arrivals with delta-t drawn from {0, 1ns, I-1ns, I, I+1ns, uniform in [0,2I]} over a 32-symbol alphabet (five pairs collide under FNV-1a, CRC-32 or the 31-multiplier string hash) (incl. the empty message, near-duplicates, messages containing '%' and pairs of long messages that differ only at byte 127, 128, 255, 256, 4999 or by one trailing byte); captured log output compared line by line with the model 'suppressed iff identical to the last printed message and less than I after that print'. Non-trivial: some message was suppressed and later printed again after the interval, and at least two different messages were printed. Distinct by hash of the case."
 
 func vfGenC20(t *rapid.T) vfC20Case {
 	iv := rapid.OneOf(
